@@ -79,4 +79,17 @@ CHECKS["C17"] = {
           "argument structure (two arrays, an int, two keywords) and capacity 2. Not under contract: LazyContourList (deque with "
           "maxlen), BasinProxyFeature ownership (same fix applied, covered by the D5 regression replay).",
   "technique": "contract-based deductive verification: AST-generated VCs, structural obligations on the ghost hash stream and on the engine's view/alias heap, z3 for the value obligations"}
+CHECKS["C03"] = {
+  "text": "Proof of the class invariant of Filter (every cached box array == box(last applied settings); every cached polygon array "
+          "== inside() for the polygon state whose hash is stored) and of the postcondition of Filter.update: for every event, "
+          "all[i] == (enable ? box(cfg) and invalid(cfg) and polygons(cfg) and manual : True) for the *current* settings, independently "
+          "of the previous state beyond the invariant (=> independent of the history of edits); bounds inclusive, swapped when reversed, "
+          "inactive when min == max, NaN never inside (IEEE comparisons on a float sort with NaN/+-inf), polygon added / cached / "
+          "modified (hash change) / removed, invalid-event removal, enable toggle; with an event limit only qualifying events remain.",
+  "note": "Trusted: rank/select axioms for boolean indexing and masked assignment, PolygonFilter.filter as a function inside(id,x,y) "
+          "(C15), downsample_rand contract (C16), Configuration.copy as a deep copy, scalar_feature_exists called natively. The scenario "
+          "has two scalar features, one box-filtered feature and at most one polygon filter (12 structure variants, data and values "
+          "symbolic, any number of events). The exact count under an event limit follows from the downsample_rand contract and a "
+          "cardinality lemma that is stated, not mechanised. Filter.__init__/reset and RTDCBase.polygon_filter_add/rm are not under contract.",
+  "technique": "contract-based deductive verification: AST-generated VCs with a class invariant as pre/postcondition over quantified array formulas, discharged by z3 (cvc5 fallback)"}
 NOT_APPLICABLE = {}
